@@ -75,16 +75,27 @@ Definition near_aei (d : af_desc) : bool :=
   | _ => false
   end.
 
-(* numpy.argsort is not stable: when the minimum-success repair of the epsilon-constraint data filter has to choose among
+(* (i) numpy.argsort is not stable: when the minimum-success repair of the epsilon-constraint data filter has to choose among
    equal optimising values (typically several failed rows, which all hold the lie), which rows it restores is unspecified;
+   (ii) or a scaled value sits on the threshold of the filter;
    then only the model-independent part of the main Gaussian process is compared (C13 treats the same tie the same way) *)
 Fixpoint has_dup (l : list Q) : bool :=
   match l with [] => false | x :: t => existsb (Qeq_bool x) t || has_dup t end.
+Fixpoint insert_q (x : Q) (l : list Q) : list Q :=
+  match l with [] => [x] | y :: t => if Qle_bool x y then x :: l else y :: insert_q x t end.
+Definition sort_q (l : list Q) : list Q := fold_right insert_q [] l.
 Definition eps_tie (r : request) : bool :=
   match q_info r, opt_of r with
   | EpsC om cm eps, Some v =>
       let lab := eps_failures eps cm (v_values v) (q_fails r) in
-      Nat.ltb (Pareto.count_true (map negb lab)) min_success && has_dup (Pareto.select lab (col om (v_values v)))
+      (let ns := Pareto.count_true (map negb lab) in
+       let sorted := sort_q (Pareto.select lab (col om (v_values v))) in
+       let k := (min_success - ns)%nat in
+       (* the cut of argsort(...)[:k] falls between two equal values *)
+       Nat.ltb ns min_success && Nat.ltb k (length sorted) && Qeq_bool (nth (k - 1) sorted 0) (nth k sorted 0)) ||
+      (* a scaled value within 1e-9 of the data filter's threshold: float rounding decides on which side it falls *)
+      (let thr := eps_no_bounds eps cm (Pareto.select (map negb (q_fails r)) (v_values v)) in
+       existsb (fun y => Qle_bool (Qabs (y - thr)) (1 # 1000000000)) (col cm (v_values v)))
   | _, _ => false
   end.
 Definition gp_match_weak (g : gp_desc) (o : obs_gp) : bool :=
@@ -117,3 +128,6 @@ Definition branch_code (c : case) : nat :=
   | CRaised _ => 99%nat
   | CObs r _ => match wire r with None => 98%nat | Some d => af_code (a_kind d) end
   end.
+
+(* cases compared at full strength (false = the weak comparison of the main Gaussian process was used); counted by the harness *)
+Definition full_strength (c : case) : bool := match c with CRaised _ => true | CObs r _ => negb (eps_tie r) end.
